@@ -839,19 +839,34 @@ def main(ctx):
         for (cpu, S), p, text in plan_fail[:3]:
             ctx.violation({"kind": "plan", "failure": text}, {"case": {"kind": "plan", "cpu": cpu, "S": S}, "failure": text},
                           f"pool helper with cpu_count={cpu}, {S} jobs: {text}")
-        if not oracle_fail and not plan_fail:
-            if mismatches:
-                case, a, b = mismatches[0]
-                ctx.violation({"kind": "correspondence"},
-                              {"case": case, "impl": a, "model": b, "n_mismatches": len(mismatches),
-                               "broken": "correspondence between the real code and QG.Model.Merge / QG.Model.Pool"},
-                              "model and implementation disagree although the property's oracle passes on every explored case",
-                              no_failing_input=True)
-            if not lean.ok:
-                ctx.violation({"kind": "proof"}, {"broken": lean.failed},
-                              "Lean obligations of C19 do not check; oracle passes on every explored case", no_failing_input=True)
-        elif mismatches:
-            cov["correspondence_mismatch_sample"] = [{"case": {k: v for k, v in m[0].items() if k != "files"}} for m in mismatches[:3]]
+        # a disagreement between model and code at an input where the oracle ALSO fails is that failing input seen twice;
+        # a disagreement anywhere else is a broken tie and is reported even when (known) oracle failures exist.
+        failing_keys = {case_key(c) for c, _, _ in oracle_fail} | {json.dumps({"kind": "plan", "cpu": g[0], "S": g[1]}) for g, _, _ in plan_fail}
+        d13_seen = any(f == "existing-target-not-refused" for _, _, (f, _) in oracle_fail)
+
+        def explained(case, a, b):
+            if case["kind"] == "plan":
+                return json.dumps(case) in failing_keys
+            if case_key(case) in failing_keys:
+                return True
+            # same call site as D13, seen from outside the positive clause: the third assertion decides differently with
+            # `all` (pinned) and `any` — k = 0 (`not all([])` refuses an empty merge) or a later assertion refuses instead;
+            # nothing is written either way, only the identity of the AssertionError differs
+            return (d13_seen and case["kind"] == "merge" and isinstance(a, dict) and isinstance(b, dict)
+                    and a.get("files") == b.get("files")
+                    and "AssertionError:target" in (a.get("outcome"), b.get("outcome")))
+        unexplained = [m for m in mismatches if not explained(*m)]
+        cov["correspondence_mismatches_not_at_oracle_failures"] = len(unexplained)
+        if unexplained:
+            case, a, b = unexplained[0]
+            ctx.violation({"kind": "correspondence"},
+                          {"case": case, "impl": a, "model": b, "n_mismatches": len(unexplained),
+                           "broken": "correspondence between the real code and QG.Model.Merge / QG.Model.Pool"},
+                          "model and implementation disagree at an input on which the property's oracle passes",
+                          no_failing_input=True)
+        if not lean.ok:
+            ctx.violation({"kind": "proof"}, {"broken": lean.failed},
+                          "Lean obligations of C19 do not check", no_failing_input=True)
     finally:
         shutil.rmtree(base, ignore_errors=True)
 
